@@ -19,7 +19,7 @@ def one(job):
         p = subprocess.run(["patch", "-R", "-p1", "--fuzz=3", "-s"], input=diff, cwd=s + "/repo", capture_output=True, text=True)
         if p.returncode != 0:
             return f"{commit} {prop}: reverse patch does not apply: {p.stdout[:200]}"
-        env = dict(os.environ, VERIF_REPO=s + "/repo", VERIF_BUILD=s + "/build", VERIF_EVIDENCE=s + "/evidence", VERIF_REPLAY_OUT=s + "/replay")
+        env = dict(os.environ, VERIF_REPO=s + "/repo", VERIF_BUILD=s + "/build", VERIF_EVIDENCE=s + "/evidence", VERIF_REPLAY_OUT=s + "/replay", VERIF_KEEP_DRIVER_CACHE="1")
         r = subprocess.run([os.path.join(V, "bin/check"), prop], env=env, capture_output=True, text=True, cwd=V)
         obs = [l.split(" ")[2] for l in r.stdout.split("\n") if l.startswith("failed obligation")]
         vio = [l for l in r.stdout.split("\n") if l.startswith("VIOLATION")]
